@@ -48,7 +48,11 @@ var (
 	// the required set {-10s,-1s,0,1s,59s,1h,100d} plus sub-second durations
 	// (the stamp is floor(now+duration)) and one that carries the stamp past 2^31.
 	durs = []time.Duration{-10 * time.Second, -time.Second, -time.Millisecond, 0, time.Millisecond, time.Second,
-		1500 * time.Millisecond, 59 * time.Second, time.Hour, 100 * 24 * time.Hour, 40 * 365 * 24 * time.Hour}
+		1500 * time.Millisecond, 59 * time.Second, time.Hour, 100 * 24 * time.Hour, 40 * 365 * 24 * time.Hour,
+		// expiry at / just before 1970-01-01 (usernames "0" and "-1") and in 1960 (negative stamp):
+		// their windows lie before the bubble clock's start, so they are probed at
+		// the bubble start and at the generation instant (see reachable)
+		-time.Duration(genBase) * time.Second, -time.Duration(genBase)*time.Second - time.Millisecond, -40 * 365 * 24 * time.Hour}
 	phases = []time.Duration{0, 500 * time.Millisecond, 999 * time.Millisecond}
 	kinds  = []string{"lt", "rest"}
 
@@ -220,14 +224,26 @@ func baseCases() []baseCase {
 }
 
 func durClass(d time.Duration) string {
+	// the stamp ranges matter as much as the sign: "0", negative numbers and
+	// numbers beyond 2^31 are all usernames a generator writes
+	stamp := floorDiv(genBase*1e9+int64(d), 1e9)
+	s := ""
+	switch {
+	case stamp < 0:
+		s = ",stamp<0"
+	case stamp == 0:
+		s = ",stamp=0"
+	case stamp > 1<<31:
+		s = ",stamp>2^31"
+	}
 	switch {
 	case d < 0:
-		return "dur<0"
+		return "dur<0" + s
 	case d == 0:
-		return "dur=0"
+		return "dur=0" + s
 	}
 
-	return "dur>0"
+	return "dur>0" + s
 }
 
 var tx0 = [12]byte{'c', '1', '7', 0, 0, 0, 0, 0, 0, 0, 0, 1}
@@ -300,6 +316,23 @@ func instants(stamp, ens int64) []int64 {
 		out = append(out, v)
 	}
 	sort.Slice(out, func(i, j int) bool { return out[i] < out[j] })
+
+	return reachable(out)
+}
+
+// reachable drops instants before the start of the bubble clock; when nothing
+// is left (expiry decades in the past) the probes are the bubble start, one
+// hour in, and just after.
+func reachable(ats []int64) []int64 {
+	var out []int64
+	for _, a := range ats {
+		if a >= epoch*1e9 {
+			out = append(out, a)
+		}
+	}
+	if len(out) == 0 {
+		out = []int64{epoch * 1e9, epoch*1e9 + 1, genBase * 1e9, genBase*1e9 + 999e6}
+	}
 
 	return out
 }
